@@ -724,6 +724,12 @@ func r16Sorted(c *core.Ctx, p *load.Program) {
 			}
 			any = true
 			cl := callProducing(v)
+			if cl != nil {
+				// a per-entry wrapper (replaces s[i] by something built from s[i], returns s) keeps the order
+				if arg := elementwiseWrapperArg(cl); arg != nil {
+					cl = callProducing(arg)
+				}
+			}
 			if cl == nil || !sortingSource(cl) {
 				good = false
 			}
@@ -1137,4 +1143,74 @@ func r16ListingFollowsLinks(c *core.Ctx, p *load.Program) {
 	if n == 0 {
 		c.Hard("anchor: os.Lstat call in package os")
 	}
+}
+
+// elementwiseWrapperArg: cl calls a function with a body whose every return hands back one of its slice parameters, and
+// whose only writes to that slice are stores to s[i] of something built from s[i] (no append, no re-slicing, no call
+// that receives the slice): the argument bound to that parameter, else nil. Such a function cannot reorder, drop or
+// add entries.
+func elementwiseWrapperArg(cl *ssa.Call) ssa.Value {
+	callee := ssax.StaticCallee(cl)
+	if callee == nil || callee.Blocks == nil || len(callee.Params) != len(cl.Call.Args) {
+		return nil
+	}
+	var param *ssa.Parameter
+	for _, r := range ssax.Returns(callee) {
+		if len(r.Results) != 1 {
+			return nil
+		}
+		q, ok := r.Results[0].(*ssa.Parameter)
+		if !ok || (param != nil && q != param) {
+			return nil
+		}
+		param = q
+	}
+	if param == nil {
+		return nil
+	}
+	if _, isSlice := param.Type().Underlying().(*types.Slice); !isSlice {
+		return nil
+	}
+	ok := true
+	ssax.Instrs(callee, func(ins ssa.Instruction) {
+		switch x := ins.(type) {
+		case *ssa.Call:
+			for _, a := range x.Call.Args {
+				if a == ssa.Value(param) {
+					if b, isB := x.Call.Value.(*ssa.Builtin); !isB || b.Name() != "len" {
+						ok = false
+					}
+				}
+			}
+		case *ssa.Slice:
+			if x.X == ssa.Value(param) {
+				ok = false
+			}
+		case *ssa.Store:
+			if ia, isIA := x.Addr.(*ssa.IndexAddr); isIA && ia.X == ssa.Value(param) {
+				// the element stored is built from the element read at the same index (the struct literal goes through a
+				// local cell, so the read is looked for in the function rather than in the stored value's operands)
+				same := false
+				ssax.Instrs(callee, func(in2 ssa.Instruction) {
+					if ld, isLd := in2.(*ssa.UnOp); isLd {
+						if ia2, isIA2 := ld.X.(*ssa.IndexAddr); isIA2 && ia2.X == ssa.Value(param) && ia2.Index == ia.Index {
+							same = true
+						}
+					}
+				})
+				if !same {
+					ok = false
+				}
+			}
+		}
+	})
+	if !ok {
+		return nil
+	}
+	for i, q := range callee.Params {
+		if q == param {
+			return cl.Call.Args[i]
+		}
+	}
+	return nil
 }
